@@ -4,6 +4,7 @@
   authority that the constructor / `build` write from a split input authority.
 -/
 import YarlModel
+import YarlProofs.Lemmas.BuildFix
 import YarlProofs.C03Reach
 import YarlProofs.C16Host
 set_option linter.unusedVariables false
@@ -596,11 +597,13 @@ theorem strPort_eq (scheme : Str) (port : Option Nat) :
       | none => none) = strPort scheme port := by
   cases port <;> rfl
 
-/-- the authority `build(encoded=False)` writes -/
+/-- the scheme and the authority `build(encoded=False)` writes: the scheme is the LOWERED one (`sc`, fix e21485a:
+    `lower a.scheme` for an ASCII scheme, the oracle's answer otherwise), and no default port of THAT scheme is
+    stored -/
 theorem build_shape (e : Env) (a : BuildArgs) (u : Url) (henc : a.encoded = false) (hok : BuildNetOK e a)
     (h : build e a = .ok u) :
-    u.scheme = a.scheme ∧ ((u.netloc = [] ∧ u.pre = none) ∨
-      ∃ user pw host port, AuthShape e u user pw host port ∧ ∀ p, port = some p → some p ≠ defaultPort a.scheme) := by
+    ∃ sc, lowerAny e a.scheme = .ok sc ∧ u.scheme = sc ∧ ((u.netloc = [] ∧ u.pre = none) ∨
+      ∃ user pw host port, AuthShape e u user pw host port ∧ ∀ p, port = some p → some p ≠ defaultPort sc) := by
   unfold build at h
   obtain ⟨_, h⟩ := WfLemmas.ite_err_ok h
   obtain ⟨_, h⟩ := WfLemmas.ite_err_ok h
@@ -610,14 +613,17 @@ theorem build_shape (e : Env) (a : BuildArgs) (u : Url) (henc : a.encoded = fals
   obtain ⟨qs, hqs, h⟩ := WfLemmas.bind_ok h
   rw [henc] at h
   rw [if_neg (by decide)] at h
+  obtain ⟨sc, hsc, h⟩ := WfLemmas.bind_ok h
   obtain ⟨netloc, hnl, h⟩ := WfLemmas.bind_ok h
   obtain ⟨path, hpath, h⟩ := WfLemmas.bind_ok h
   cases h
-  refine ⟨rfl, ?_⟩
+  refine ⟨sc, hsc, rfl, ?_⟩
   simp only [fromParts]
+  simp only [] at hnl
   split at hnl
-  · -- authority route
+  · -- authority route (a non-ASCII authority passed the NFKC screen, fix c2c2803)
     rename_i hane
+    replace hnl := (BuildFix.screen_ok hnl).1
     have hane' : a.authority ≠ [] := by
       intro h0; rw [h0] at hane; simp at hane
     rcases hok.authority with h0 | ⟨np, h0, hsp, hhost, hk, hwrap⟩
@@ -632,11 +638,11 @@ theorem build_shape (e : Env) (a : BuildArgs) (u : Url) (henc : a.encoded = fals
         simp only at hnl
         rw [keep_bracket (fun h58 => hwrap (fun hm => h58 (hiff.2 hm)))] at hnl
         obtain ⟨hu, hp⟩ := WfLemmas.splitNetloc_pyStr e.o a.authority hok.authority_py np hsp
-        obtain ⟨user, pw, heq, hui⟩ := build_forms_shape e np.user np.password hh (strPort a.scheme np.port) netloc hu hp hnl
+        obtain ⟨user, pw, heq, hui⟩ := build_forms_shape e np.user np.password hh (strPort sc np.port) netloc hu hp hnl
         right
         exact ⟨user, pw, hh, _, ⟨heq, hui, hfix,
-          ReachFix.strPort_range a.scheme np.port (fun p hp => splitNetloc_port_range e.o a.authority np p hsp hp),
-          Or.inl rfl⟩, ReachFix.strPort_notDefault a.scheme np.port⟩
+          ReachFix.strPort_range sc np.port (fun p hp => splitNetloc_port_range e.o a.authority np p hsp hp),
+          Or.inl rfl⟩, ReachFix.strPort_notDefault sc np.port⟩
   · split at hnl
     · -- host route
       rename_i hhne
@@ -644,10 +650,10 @@ theorem build_shape (e : Env) (a : BuildArgs) (u : Url) (henc : a.encoded = fals
         intro h0; rw [h0] at hhne; simp at hhne
       obtain ⟨r, he, hnl⟩ := WfLemmas.bind_ok hnl
       obtain ⟨hh, rfl, hfix⟩ := encodeHost_hostFix_validated e.o hok.host hhne' he
-      obtain ⟨user, pw, heq, hui⟩ := build_forms_shape e a.user a.password hh (strPort a.scheme (a.port.map Int.toNat)) netloc hok.user hok.password hnl
+      obtain ⟨user, pw, heq, hui⟩ := build_forms_shape e a.user a.password hh (strPort sc (a.port.map Int.toNat)) netloc hok.user hok.password hnl
       right
-      refine ⟨user, pw, hh, _, ⟨heq, hui, hfix, ReachFix.strPort_range a.scheme _ ?_, Or.inl rfl⟩,
-        ReachFix.strPort_notDefault a.scheme _⟩
+      refine ⟨user, pw, hh, _, ⟨heq, hui, hfix, ReachFix.strPort_range sc _ ?_, Or.inl rfl⟩,
+        ReachFix.strPort_notDefault sc _⟩
       intro p hp
       cases hport : a.port with
       | none => rw [hport] at hp; cases hp
